@@ -20,7 +20,8 @@ NUMF = {'none': {}, 'ge5': {'ge': 5}, 'gt5': {'gt': 5}, 'le5': {'le': 5}, 'lt5':
         'ge5gt5': {'ge': 5, 'gt': 5}, 'le5lt5': {'le': 5, 'lt': 5}}
 STRF = {'minlen2': {'min_len': 2}, 'maxlen3': {'max_len': 3}, 'len2to3': {'min_len': 2, 'max_len': 3},
         'pattern': {'pattern': 'a+b'}, 'pattern_maxlen3': {'pattern': 'a+b', 'max_len': 3},
-        'pattern_derived': {'pattern': 'a+b', '__parent__': {'pattern': 'x+y', 'probe': 'xxy'}}}
+        'pattern_derived': {'pattern': 'a+b', '__parent__': {'pattern': 'x+y', 'probe': 'xxy'}},
+        'pattern_alt': {'pattern': 'a|ab'}}
 
 
 def type_of(c):
@@ -49,6 +50,8 @@ def type_of(c):
         if c['facet'] == 'lelt':
             return {'k': 'prim', 'p': 'DateTime', 'facets': {'le': B, 'lt': {'dt': [2020, 1, 1, 1, 0, 0, 0, 0]}}}
         return {'k': 'prim', 'p': 'DateTime', 'facets': {c['facet']: B}}
+    if g == 'subname':
+        return {'k': 'obj', 'name': 'Sn', 'fields': [['x', {'k': 'prim', 'p': 'Integer', 'min': 1, 'sub_name': 'xx'}], ['w', {'k': 'prim', 'p': 'Integer'}]]}
     if g == 'inh':
         return {'k': 'obj', 'name': 'Der', 'fields': [['n', {'k': 'prim', 'p': 'Integer', 'min': 1}]],
                 'base': {'k': 'obj', 'name': 'Bas', 'fields': [['m', {'k': 'prim', 'p': 'Integer', 'min': 1}]]}}
@@ -87,11 +90,13 @@ def value_of(c, fam):
             return SKIP if fam == 'http' else E.NIL
         if c['how'] == 'absent':
             return None
-        return {'q': 5} if c['ty'] == 'Obj' else 5 if c['ty'] == 'Integer' else 'x'
+        return {'q': 5} if c['ty'] == 'Obj' else 5 if c['ty'] == 'Integer' else datetime.date(2020, 1, 2) if c['ty'] == 'Date' else 'x'
     if g == 'date':
         from pytz import FixedOffset, utc
         inst = BOUND.replace(tzinfo=utc) + datetime.timedelta(minutes=c['delta'])
         return inst.astimezone(FixedOffset(c['off']))
+    if g == 'subname':
+        return {'x': 5, 'w': 1} if c['how'] == 'present' else {'w': 1}
     if g == 'inh':
         if c['omit'] == 'both' and fam == 'http':
             return SKIP          # (the flat notation cannot spell an object without members: no key, no object)
